@@ -13,6 +13,10 @@ def closesNonDataValues : Bool := true
 /-- updateValues, target without an entry in dataPredecessors: it goes on with an empty set, so the
     values sent to the target reach the arm that closes streams from non-data senders -/
 def missingDpsArm : String := "empty-set"
+/-- OnWithStreamHandle: one copy per kept handler occurrence plus one for the node -/
+def cbCopyCountExpr : String := "len(handlers)+1"
+/-- OnWithStreamHandle: every kept occurrence is handed the copy at its own index -/
+def cbHandLoop : String := "range handlers: ctx=handle(ctx,V,inOuts[K])"
 def firstCopyExpr : String := "len(t.call.writeTo)+len(t.call.writeToBranches)*2"
 /-- multiStreamReader.close: the loop signals every merged source (range variables renamed K, V) -/
 def mergeCloseLoop : String := "range msr.sts: V.closeRecv()"
